@@ -242,12 +242,12 @@ void analogWrite(uint8_t pin, int val) {
   ev("AW", "%d\t%d", pin, val);
 }
 
-unsigned long millis(void) { return (unsigned long)(rt().now_us / 1000ULL); }
-unsigned long micros(void) { return (unsigned long)(rt().now_us); }
+uint32_t millis(void) { return (uint32_t)(rt().now_us / 1000ULL); }   // wraps at 2^32 ms like the AVR's 32-bit counter
+uint32_t micros(void) { return (uint32_t)(rt().now_us); }
 
-void delay(unsigned long ms) {
+void delay(uint32_t ms) {
   Runtime &r = rt();
-  ev("DELAY", "%lu", ms);
+  ev("DELAY", "%lu", (unsigned long)ms);
   r.now_us += (uint64_t)ms * 1000ULL;
 }
 
@@ -257,20 +257,20 @@ void delayMicroseconds(unsigned int us) {
   r.now_us += us;
 }
 
-unsigned long pulseIn(uint8_t pin, uint8_t state, unsigned long timeout) {
+uint32_t pulseIn(uint8_t pin, uint8_t state, uint32_t timeout) {
   Runtime &r = rt();
   long v = 0;
   auto it = r.ptape.find(pin);
   if (it != r.ptape.end() && it->second.has) v = it->second.next();
   if (v < 0) v = 0;
   if ((unsigned long)v > timeout) v = 0;
-  ev("PULSE", "%d\t%d\t%lu\t%ld", pin, state, timeout, v);
+  ev("PULSE", "%d\t%d\t%lu\t%ld", pin, state, (unsigned long)timeout, v);
   r.now_us += v > 0 ? (uint64_t)v : (uint64_t)timeout;
-  return (unsigned long)v;
+  return (uint32_t)v;
 }
 
-void tone(uint8_t pin, unsigned int frequency, unsigned long duration) {
-  ev("TONE", "%d\t%u\t%lu", pin, frequency, duration);
+void tone(uint8_t pin, unsigned int frequency, uint32_t duration) {
+  ev("TONE", "%d\t%u\t%lu", pin, frequency, (unsigned long)duration);
 }
 
 void noTone(uint8_t pin) { ev("NOTONE", "%d", pin); }
@@ -827,7 +827,7 @@ String Stream::readString() {
 
 TwoWire Wire;
 void TwoWire::begin() { ev("WIRE_BEGIN", ""); }
-void TwoWire::setClock(unsigned long) {}
+void TwoWire::setClock(uint32_t) {}
 
 Servo::Servo() : mock_pin(-1), mock_min(544), mock_max(2400), mock_us(1500) { mock_id = rt().servo_count++; }
 uint8_t Servo::attach(int pin) { return attach(pin, 544, 2400); }
